@@ -1767,9 +1767,10 @@ class AstEval:
     async def ast_listcomp(self, arg):
         """Evaluate list comprehension."""
         target_vars, save_values = await self.loopvar_scope_save(arg.generators)
-        result = await self.listcomp_loop(arg.generators, arg.elt)
-        await self.loopvar_scope_restore(target_vars, save_values)
-        return result
+        try:
+            return await self.listcomp_loop(arg.generators, arg.elt)
+        finally:
+            await self.loopvar_scope_restore(target_vars, save_values)
 
     async def ast_tuple(self, arg):
         """Evaluate Tuple."""
@@ -1809,9 +1810,10 @@ class AstEval:
     async def ast_dictcomp(self, arg):
         """Evaluate dict comprehension."""
         target_vars, save_values = await self.loopvar_scope_save(arg.generators)
-        result = await self.dictcomp_loop(arg.generators, arg.key, arg.value)
-        await self.loopvar_scope_restore(target_vars, save_values)
-        return result
+        try:
+            return await self.dictcomp_loop(arg.generators, arg.key, arg.value)
+        finally:
+            await self.loopvar_scope_restore(target_vars, save_values)
 
     async def ast_set(self, arg):
         """Evaluate set."""
@@ -1839,9 +1841,10 @@ class AstEval:
     async def ast_setcomp(self, arg):
         """Evaluate set comprehension."""
         target_vars, save_values = await self.loopvar_scope_save(arg.generators)
-        result = await self.setcomp_loop(arg.generators, arg.elt)
-        await self.loopvar_scope_restore(target_vars, save_values)
-        return result
+        try:
+            return await self.setcomp_loop(arg.generators, arg.elt)
+        finally:
+            await self.loopvar_scope_restore(target_vars, save_values)
 
     async def ast_subscript(self, arg):
         """Evaluate subscript."""
